@@ -71,6 +71,11 @@ CHECKS = {
    text="Proof (on models with the visiting order as an explicit argument): visit_all_perm and its invariant form, keyed writes observably order-free, max accumulation, opcode-list selection independent of the order objectSet.getReqs answers in, emit-after-sort independent of the map order (mathcomp sort), ImportString independent of matcher order (from the regenerated matcher table, C08), compiler result independent of worker interleaving (C12 LTS). Every map-range site of the tool packages (206 at the pinned tree) is listed by harness/sites.go and must appear in translators/c07_sites.json with a class; an unlisted site fails the check; sites whose order can reach an artefact are known findings unless repaired. Dynamic: basm (with requirements dump), bondgo (single and multi processor), neuralbond->basm, bmqsim->basm, bondmachine -create-verilog, 6 (quick) / 24 fresh runs per input with GOMAXPROCS 1/2/4/16, plus in-process repetition. The tie between the order argument and the Go runtime is statistical.",
    design_ref="DESIGN.md section 5, C07",
    note="Trusted: Coq kernel; Front/Order.v, Front/SortedEmit.v loop-shape models; the manual class of each site in translators/c07_sites.json; harness/sites.go (go/types)."),
+ "C05": dict(
+   technique="Coq model of the BASM assembler for .romtext sections over the simulated instruction subset (labels, entry directive removal, mov pseudo-instruction by operand kinds and iomode, architecture sizing) with a lock-step simulation theorem against a direct source-level semantics, and a sizing-adequacy theorem; tie: the real assembler's program, sizes and bonds and the real simulator's external streams compared with the model on generated sources",
+   text="Proof: lockstep (one step of the source semantics, whose program counter ranges over source items and whose jumps go to the item a label is written in front of, corresponds to one simulator step of the assembled program, with the ROM address the number of instruction items before the source position), lifted to any number of steps; start states agree when the entry label precedes the first instruction (refuted otherwise: known finding, the 'entry' metadata is never used); inferred R/N/M/O fit every register, port and address of the program. Tie per run: 40 (quick) / 500 generated sources with 1-3 processors wired by ioatt, labels, forward/backward j/jz, all four mov forms, entry directive first or elsewhere, sync/async, register sizes 8/16/32: assembled program and sizes equal the model's, bond set equals the ioatt lines, 40 ticks of external streams equal the whole machine run from the source-level semantics (Net.Tick with source steps). Macros, data sections, templates, fragments (C06) are outside the model (partial).",
+   design_ref="DESIGN.md section 5, C05",
+   note="Trusted: Coq kernel; Front/Basm.v hand-written; Isa/Sim.v and Net/Tick.v (tied in C09)."),
 }
 NOT_APPLICABLE = []
 
